@@ -89,7 +89,8 @@ double sol_number(Rng& rng, const SolGenOpts& o) {
 
 std::string gen_message(Rng& rng) {
   static const char* words[] = {"optimal", "solution;", "objective", "42.5", "SIMDRV", "1.0:", "infeasible", "iterations", "0", "simplex",
-                                "limit", "reached", "(primal)", "x=y", "100%", "\ttabbed", "Options", "objno 0 0", "suffix 0 1 2 0 0", "3"};
+                                "limit", "reached", "(primal)", "x=y", "100%", "\ttabbed", "Options", "objno 0 0", "suffix 0 1 2 0 0", "3",
+                                "{", "}", "{}", "{0}", "{{x}}", "set {1,2}", "{:d}", "%s", "%d%n", "\\", "\"quoted\"", "a{b", "c}d"};
   std::string m;
   if (rng.chance(0.25)) m.append((size_t)(1 + rng.below(12)), '\b');
   int nlines = (int)rng.below(5);
@@ -102,6 +103,7 @@ std::string gen_message(Rng& rng) {
     int nw = (int)rng.below(6);
     for (int w = 0; w < nw; ++w) { if (w) m += ' '; m += rng.pick(words); }
     if (rng.chance(0.04)) m.append((size_t)(480 + rng.below(80)), 'L');   // longer than the reader's 512-byte line buffer
+    if (rng.chance(0.03)) { size_t have = m.size() - (m.rfind('\n') == std::string::npos ? 0 : m.rfind('\n') + 1); size_t want = 506 + rng.below(10); if (have < want) m.append(want - have, 'B'); }   // a line ending right at the buffer boundary
     if (rng.chance(0.05)) m += '\b';
   }
   if (rng.chance(0.4)) m += '\n';
@@ -124,6 +126,7 @@ Sol gen_sol(Rng& rng, const SolGenOpts& o) {
   if (rng.chance(0.1) && nopt > 0) s.options[rng.below(nopt)] = rng.chance(0.5) ? -1 : 2147483647L;
   s.nvars = (int)rng.below(9);
   s.ncons = (int)rng.below(7);
+  if (o.long_vectors && rng.chance(0.04)) { s.nvars = (int)rng.range(150, 700); if (rng.chance(0.5)) s.ncons = (int)rng.range(150, 500); }   // several stdio / block buffers
   s.nlcons = rng.chance(0.3) ? (int)rng.below(3) : 0;
   s.nobjs = (int)rng.below(4);
   int xm = (int)rng.below(10), ym = (int)rng.below(10);
@@ -142,7 +145,11 @@ Sol gen_sol(Rng& rng, const SolGenOpts& o) {
     f.kind = (int)rng.below(4);
     f.real = rng.chance(0.45);
     f.size = f.kind == 0 ? s.nvars : f.kind == 1 ? s.ncons + s.nlcons : f.kind == 2 ? s.nobjs : 1;
-    if (rng.chance(0.35)) {
+    if (rng.chance(0.03)) {        // a table whose last (or only) line is longer than the reader's line buffer
+      f.table = rng.chance(0.5) ? "1\tshort\tline\n" : "";
+      f.table += "2\tlong\t" + std::string((size_t)(490 + rng.below(60)), 't');
+      if (rng.chance(0.5)) f.table += "\n";
+    } else if (rng.chance(0.35)) {
       static const char* tabs[] = {"0\tnone\tno status assigned", "1\tbas\tbasic\n2\tsup\tsuperbasic\n3\tlow\tnonbasic <= (normally =) lower bound",
                                    "1 mem IIS member\n2 pmem possible member", "x", "0 no\n1 yes\n"};
       f.table = rng.pick(tabs);
@@ -150,6 +157,7 @@ Sol gen_sol(Rng& rng, const SolGenOpts& o) {
     for (int k = 0; k < f.size; ++k)
       if (rng.chance(0.6)) {
         double v = f.real ? sol_number(rng, o) : (double)rng.range(-3, 9);
+        if (!f.real && rng.chance(0.03)) v = rng.chance(0.5) ? 2147483647.0 : -2147483648.0;
         if (v != 0 || std::isnan(v)) f.vals.push_back({k, v});     // zero entries are never written (sparse format)
       }
     s.sufs.push_back(f);
